@@ -400,6 +400,9 @@ def int_to_text(v, spec):
         base = 16 if s in ("x", "X") else 10
         upper = s == "X"
         pad = _real_int(w) if w else 0
+    if v.lo is None or v.hi is None or v.hi > 10**12 or v.lo < -(10**12):
+        # unbounded ints only ever reach diagnostics: opaque stub (formatting is not the subject)
+        return V.PLACEHOLDER
     neg = False
     if v.lo is None or v.lo < 0:
         if e.decide(v.t < 0):
@@ -559,15 +562,24 @@ class _Base64Shim:
 class SEnumInt(V.SInt):
     """A member of an IntEnum whose identity is symbolic (one of the members, by path condition)."""
 
-    __slots__ = ("_cls",)
+    __slots__ = ("_cls", "_base")
 
     def __init__(self, cls, s):
-        V.SInt.__init__(self, s.t, s.lo, s.hi, s.m, s.r)
+        V.SInt.__init__(self, None, s.lo, s.hi, s.m, s.r)
+        self.op = "add"
+        self.args = (s, 0)
         self._cls = cls
+        self._base = s
 
     @property
     def value(self):
-        return V.SInt(self.t, self.lo, self.hi, self.m, self.r)
+        b = self._base
+        # keep refinements made through either object
+        if self.lo is not None and (b.lo is None or self.lo > b.lo):
+            b.lo = self.lo
+        if self.hi is not None and (b.hi is None or self.hi < b.hi):
+            b.hi = self.hi
+        return V.norm(b)
 
     @property
     def name(self):
@@ -615,7 +627,11 @@ class SxEnumMeta(_enum.EnumMeta):
             hi = vals[-1] if value.hi is None else min(value.hi, vals[-1])
             if lo == hi:
                 return super().__call__(lo)
-            return SEnumInt(cls, V.SInt(value.t, lo, hi, value.m, value.r))
+            if value.lo is None or lo > value.lo:
+                value.lo = lo
+            if value.hi is None or hi < value.hi:
+                value.hi = hi
+            return SEnumInt(cls, value)
         r = cls._missing_(value)
         if r is None:
             raise ValueError(f"{V.PLACEHOLDER} is not a valid {cls.__qualname__}")
